@@ -80,6 +80,16 @@ def py_index(items: list[dict], get: Any) -> tuple:
 
 # --------------------------------------------------------------------------
 
+def _pad_arg(v: Any) -> Any:
+    """pad_width / constant_values as written in a program: a number, a pair
+    [before, after] (-> tuple) or one pair per axis (-> list of tuples)."""
+    if isinstance(v, list):
+        if v and all(isinstance(x, list) for x in v):
+            return [tuple(x) for x in v]
+        return tuple(v)
+    return v
+
+
 class Backend:
     """Common driver: run(prog) evaluates calls in order; a rejected call
     leaves a hole (None) and is recorded."""
@@ -209,9 +219,8 @@ class PtBackend(Backend):
         if op == "broadcast_to":
             return pt.broadcast_to(g(c["a"]), tuple(c["shape"]))
         if op == "pad":
-            return pt.pad(g(c["a"]), [tuple(p) for p in c["width"]] if isinstance(
-                c["width"], list) else c["width"],
-                constant_values=c.get("cval", 0))
+            return pt.pad(g(c["a"]), _pad_arg(c["width"]),
+                          constant_values=_pad_arg(c.get("cval", 0)))
         if op == "index":
             return g(c["a"])[py_index(c["idx"], g)]
         if op == "csr":
@@ -318,7 +327,8 @@ class NpBackend(Backend):
         if op == "broadcast_to":
             return np.broadcast_to(g(c["a"]), tuple(c["shape"]))
         if op == "pad":
-            return np.pad(g(c["a"]), c["width"], constant_values=c.get("cval", 0))
+            return np.pad(g(c["a"]), _pad_arg(c["width"]),
+                          constant_values=_pad_arg(c.get("cval", 0)))
         if op == "index":
             return g(c["a"])[py_index(c["idx"], g)]
         if op == "csr":
